@@ -63,6 +63,8 @@ def run(chk, repo):
     chk.doc("R01.5", "sign-extension table (shared with C01): no zero or "
                      "negative shift amount is ever emitted")
     c01.r5_signext(chk, repo, Dsl(repo))
+    c01.r5_endian(chk, repo, Dsl(repo))
+    address_in_dst(chk, repo, Dsl(repo))
     # every variable access stays inside the map value (the verifier
     # checks offsets against value_size): the layout rules of C08
     from . import c08
@@ -227,6 +229,64 @@ def helper_brackets(chk, repo):
                    "the verifier rejects its use" if bad else
                    "save_registers covers r0-r5 except the destination")
     chk.floor("R05.2", "helper call sites bracketed", n, 6)
+
+
+def address_in_dst(chk, repo, d):
+    """R05.4: a call site `with X.get_address(N, ...)` that does not look
+    at the register handed back and goes on with register N (a helper
+    argument) relies on the address being *computed into* N.
+    Memory.get_address hands back whatever its address expression
+    calculates into, and a bare Register calculates into itself: a Memory
+    made from a register by indexing (MemoryMap.__getitem__) therefore has
+    a computed address, never the bare register."""
+    sites = []
+    for m in repo.production_modules():
+        for w in ast.walk(m.tree):
+            if isinstance(w, ast.With):
+                for it in w.items:
+                    c = it.context_expr
+                    if isinstance(c, ast.Call) and isinstance(
+                            c.func, ast.Attribute) and c.func.attr == \
+                            "get_address" and it.optional_vars is None \
+                            and c.args and isinstance(c.args[0], ast.Constant):
+                        sites.append(c)
+    if not sites:
+        chk.ob("R05.4", "ebpfcat", "every get_address() call site uses the "
+               "register handed back", True, None, "no site relies on the "
+               "requested register")
+        return
+    mm = repo.cls(E + "MemoryMap")
+    gi = mm.methods.get("__getitem__")
+    need(gi is not None, "MemoryMap.__getitem__ vanished")
+    chk.analysed(mm.qualname + ".__getitem__")
+    bad = []
+    rows = 0
+    for long_ in (False, True):
+        for no in (0, 3, 5, 9):
+            rows += 1
+            reg = d.register("r", long_, False, False, no=no)
+            me = Obj(mm, {"ebpf": d.ebpf, "fmt": "I"})
+            try:
+                r = d.ev.call_function(gi, [me, reg], cls=mm)
+                a = d.ev.getattr(r, "address")
+            except (Unknown, Raised) as e:
+                raise AnalysisError(f"{mm.qualname}.__getitem__: cannot be "
+                                    f"evaluated: {e}")
+            if isinstance(a, Obj) and a.ci is not None and any(
+                    isinstance(c_, ClassInfo) and c_.qualname == E +
+                    "Register" for c_ in repo.mro(a.ci)):
+                bad.append(f"m[r{no}]")
+    chk.ob("R05.4", mm.qualname + ".__getitem__", f"memory addressed by a "
+           f"bare register gets a computed address ({rows} rows; "
+           f"{len(sites)} call site(s) pass the requested register to a "
+           f"helper without looking at the one handed back)", not bad, gi,
+           (", ".join(bad[:3]) + f": address is the register itself; "
+            f"get_address({unparse(sites[0].args[0])}, ...) in "
+            f"{func_qual(repo, sites[0])} leaves r"
+            f"{unparse(sites[0].args[0])} unwritten and the verifier "
+            f"rejects the helper call (R{unparse(sites[0].args[0])} "
+            f"!read_ok)") if bad else "addr + 0 is a Sum, calculated into "
+           "the requested register")
 
 
 def prog_name(chk, repo):
